@@ -461,7 +461,7 @@ impl WriterRig {
 struct ReaderRig {
   reader: Reader,
   topic_cache: Arc<Mutex<TopicCache>>,
-  seen: std::collections::BTreeSet<(GUID, i64)>,
+  seen: std::collections::BTreeSet<Timestamp>, // keys of the topic cache entries already reported
   _keep: Box<dyn std::any::Any>,
 }
 
@@ -526,9 +526,10 @@ impl ReaderRig {
     catch_unwind(AssertUnwindSafe(|| reader.handle_datafrag_msg(df, flags, &mr_state))).map_err(|_| ())?;
     let tc = self.topic_cache.lock().unwrap();
     let mut new = Vec::new();
-    for (_ts, cc) in tc.get_changes_in_range_best_effort(Timestamp::ZERO, Timestamp::INFINITE) {
+    for (ts, cc) in tc.get_changes_in_range_best_effort(Timestamp::ZERO, Timestamp::INFINITE) {
       let key = (cc.writer_guid, i64::from(cc.sequence_number));
-      if self.seen.insert(key) {
+      // every cache change counts, also a second one for the same (writer, sn)
+      if self.seen.insert(ts) {
         let bytes = match &cc.data_value {
           DDSData::Data { serialized_payload } => {
             let mut v = serialized_payload.representation_identifier.bytes.to_vec();
